@@ -570,4 +570,30 @@ theorem wf_addClampAt {cfg : Cfg P Prm} {n : Nat} (hwf : WF cfg n) (k idx : Nat)
       exact decide_eq_decide.mpr (hlm l hl)
     rw [this]; exact hwf.folNodup
 
+/-! ### an exception that propagates (round 6d) -/
+
+/-- whatever every `moveClamp` preserves holds in the state the evaluations before the raising one left -/
+theorem optimizeAbortPre_pres [LE Q] [DecidableLE Q] [LT S] [DecidableLT S] {cfg : Cfg P Prm} {o : Oracles P Q}
+    {I : St P Prm → Prop} {A : Nat → Prm → Prop} (hp : Preserved cfg o I A) (conv : List (Q × Q) → Bool)
+    (sched : Nat → IterSched Prm S) (hs : ∀ k, SchedOK A (sched k)) (st : St P Prm) (hI : I st) (it s m : Nat) :
+    I (optimizeAbortPre cfg o conv sched st it s m).st := by
+  have ha := optimize_pres hp conv it sched hs st hI
+  unfold optimizeAbortPre
+  dsimp only
+  split
+  · exact ha
+  · have hb := probeAll_pres hp (sched it) (hs it) _ (zipIdx_clampIdx cfg) _ ha
+    split
+    · next stb _ e heq => rw [heq] at hb; exact hb
+    · next stb keys heq =>
+        rw [heq] at hb
+        have hc := solveAll_pres hp (sched it) (hs it) (((sortDesc keys).map (·.1)).take s) 0 stb hb
+        split
+        · next j _ hj =>
+            split
+            · next idx e hidx he =>
+                exact runEvals_pres hp hidx _ _ hc (fun x hx => (hs it).2 s j x (List.mem_of_mem_take hx))
+            · exact hc
+        · exact hc
+
 end CBV.C13
